@@ -40,7 +40,7 @@
 (*   Read(p)       returns 0..len(p) bytes; calls Release internally       *)
 (*   Release       everything before rd may be recycled; peeks die         *)
 (*   Len           = rcv - rd                                              *)
-(*   Malloc(n) / WriteBinary(b) / Flush / Write(b)                         *)
+(*   Malloc(n) / WriteBinary(b) / Flush / Write(b) / ReadFrom(r)           *)
 (*                                                                         *)
 (* Used by: ByteQueue_mc*.cfg (exhaustive, quantified results),            *)
 (* ByteQueueTrace (logged results of the real connection), LinkBuffer      *)
@@ -193,12 +193,21 @@ WriteBegin(n) == /\ wip = 0 /\ n > 0 /\ wr' = wr + n /\ wip' = n /\ UNCHANGED fl
 WriteEnd(n, k) == /\ (wip = n \/ (n = 0 /\ wip = 0)) /\ k = n /\ flushed = wr /\ wip' = 0 /\ UNCHANGED <<wr, flushed>>
                   /\ res' = Res("Write", n, k, NoRun, "ok", Avail)
 
+\* Conn.ReadFrom(r) (io.ReaderFrom): flush, then stream r through the output buffer; n = bytes r yields.  Part of the
+\* n bytes may reach the peer while the call is in progress (WriteBegin), the rest stays buffered until the next Flush.
+ReadFromEnd(n, k) == /\ k = n
+                     /\ \/ wip = n /\ n > 0 /\ UNCHANGED wr
+                        \/ wip = 0 /\ wr' = wr + n
+                     /\ wip' = 0 /\ UNCHANGED flushed
+                     /\ res' = Res("ReadFrom", n, k, NoRun, "ok", Avail)
+
 WrOp(kind, n, k, cls) ==
     /\ cls = "ok"
     /\ \/ kind = "Malloc" /\ Malloc(n, k)
        \/ kind = "WriteBinary" /\ WriteBinary(n, k)
        \/ kind = "Flush" /\ Flush
        \/ kind = "Write" /\ WriteEnd(n, k)
+       \/ kind = "ReadFrom" /\ ReadFromEnd(n, k)
 
 ---------------------------------------------------------------------------
 (* exhaustive configuration: all interleavings of source, sink, reader and writer operations *)
@@ -228,6 +237,7 @@ WrNext == /\ \/ \E n \in Sizes : WrOp("Malloc", n, n, "ok") /\ Step
              \/ WrOp("Flush", 0, 0, "ok") /\ Step
              \/ \E n \in Sizes : WriteBegin(n) /\ UNCHANGED <<res, steps>>
              \/ \E n \in Sizes : WrOp("Write", n, n, "ok") /\ Step
+             \/ \E n \in Sizes : WrOp("ReadFrom", n, n, "ok") /\ Step
              \/ \E m \in 1 .. MaxDeliver : SinkRecv(m) /\ UNCHANGED <<res, steps>>
           /\ UNCHANGED <<eofAt, rcv, term, rd, perr, peeks, rel, copies, hEnd, hOK>>
 
